@@ -229,6 +229,23 @@ claim("C07", "other",
       "static analysis: partial evaluation with polynomial-ring summaries + exact series/term identities",
       "DESIGN.md §5 C07")
 
+claim("C08", "other",
+      "The Lie-series drivers (_lie_transform partial and full, _solve_homological_equation, both term selectors, "
+      "_apply_poly_transform, _lie_expansion, _apply_coord_transform, _zero_q1p1) are interpreted on hiten's real packed "
+      "layout at degree 4 (5 thorough) with a generic Hamiltonian: H2 in complex normal form with a generic rational "
+      "frequency vector (two vectors thorough), 15+ higher-order monomials of both kinds, a subset of their coefficients "
+      "symbolic (exact arithmetic over QQ_I[h]); only the list-level Poisson bracket is replaced by its ring summary "
+      "(C06.c). Checked as exact polynomial identities: no monomial with k_q1 != k_p1 (partial) / no non-resonant monomial "
+      "(full) remains in degrees 3..N; {H2,G_n} cancels exactly the selected terms; H_new equals the independently "
+      "computed Lie series with the returned generators AND equals H_old composed with the library's own forward "
+      "coordinate series; that series is canonical ({Phi_i,Phi_j}=J_ij) and forward o inverse = inverse o forward = id, all "
+      "modulo degree N+1; truncation counts K, K_max suffice on the whole grid 3<=n<=N<=30.",
+      "Trusted: C06.c summary of the Poisson bracket, sympy Poly arithmetic. Bounded by N and by the generic instance "
+      "(identities are polynomial in the symbolic coefficients; frequencies are generic representatives). Not decided: "
+      "small-divisor behaviour, remainder size, cleaning tolerances.",
+      "static analysis: partial evaluation of the Lie drivers on a generic symbolic instance + exact polynomial identities",
+      "DESIGN.md §5 C08")
+
 PENDING = ["C02", "C03", "C04", "C05", "C06", "C07", "C08", "C09", "C10", "C11", "C12", "C13", "C14", "C15",
            "C16", "C17", "C18", "C19", "C20"]
 
